@@ -223,7 +223,11 @@ theorem input_split_perm (parts1 parts2 : List (List Stmt)) (h : parts1.flatten.
     referred rows first — ROW-wise: when a row of a referred class is created, no row created before it refers
     to it (any topological order of the rows; class by class is a special case, `referredFirst_of_classwise`);
     no cardinality-violating duplicates (the API relates with the cardinality check, the loader connects unchecked); key lists non-empty (`new` never relates over an empty key list), without
-    repeats; no reflexive association; identifying attributes stored, not themselves referential; and
+    repeats; no reflexive association; CHAINED KEYS allowed — an identifying attribute that is itself referential in
+    its class is read through the chain of referential properties — provided on the loaded metamodel every read
+    ends within as many steps as there are classes (`readsTerminate`: no cyclic chain of key attributes) and the
+    identifying values of every referred row that some row refers to can be read back (`resolved`: the referred
+    row's own references are not dangling); without chained keys both hold (`reads_of_noChain`); and
     `_find_link(referred, referring, rel, link.phrase)` answering with the association itself (`ResolvesAt`) —
     the guard that the open finding `api-phrased-direction` violates for associations whose ends carry
     different phrases. -/
@@ -386,16 +390,22 @@ def exOrder2 : List (String × List Val) :=
 
 example : ApiGuards exSchema exOrder2 := by
   have hA : popAssocs exSchema = [exA] := by decide
-  refine ⟨?_, by decide, ?_, ?_, ?_, ?_, by decide, ?_, ?_, ?_⟩
-  · intro s hs k ns vs he
+  have hschema : ∀ s ∈ exSchema, ∀ k ns vs, s ≠ .insert k ns vs := by
+    intro s hs k ns vs he
     subst he
     simp [exSchema] at hs
-  · intro a ha
+  have hkeys : ∀ a ∈ popAssocs exSchema,
+      KeysOk a ∧ a.srcKeys.length = a.tgtKeys.length ∧ a.srcKeys ≠ [] ∧ a.srcKind ≠ a.tgtKind := by
+    intro a ha
     rw [hA] at ha
     simp only [List.mem_singleton] at ha
     subst ha
     exact ⟨⟨by decide, by decide⟩, by decide, by decide, by decide⟩
-  · rw [hA]; decide
+  have hdecl : ∀ o ∈ exOrder2, (findCls (popClasses exSchema) o.1).isSome = true ∧
+      o.2.length = (attrsOf exSchema o.1).length := by decide
+  -- no identifying attribute is referential here, so every read ends after at most two steps
+  obtain ⟨hrt, hres⟩ := reads_of_noChain exSchema exOrder2 hschema (by decide) hkeys hdecl (by rw [hA]; decide)
+  refine ⟨hschema, by decide, hkeys, hrt, hres, ?_, ?_, hdecl, ?_, ?_, ?_⟩
   · rw [hA]; decide
   · rw [hA]
     intro n a hn
@@ -423,6 +433,132 @@ example : ApiGuards exSchema exOrder2 := by
       obtain ⟨_, _, _, rfl, _⟩ := h
       simp [exA] at hk
     | _ :: _ :: _ :: _ :: _, h => simp [exOrder2] at h
+  · rw [hA]; decide
+  · rw [hA]; decide
+
+/-- chained keys: C refers to B by B's identifier, which B itself holds as a reference to A; the rows are created
+    A, B, C and every read of B's identifier ends at A's stored value -/
+def chSchema : List Stmt :=
+  [ .cls "A" [("Id", .integer)], .cls "B" [("Id", .integer), ("N", .string)], .cls "C" [("B_Id", .integer)],
+    .assoc ⟨"R1", "B", false, true, ["Id"], "", "A", false, true, ["Id"], ""⟩,
+    .assoc ⟨"R2", "C", true, true, ["B_Id"], "", "B", false, true, ["Id"], ""⟩ ]
+def chOrder : List (String × List Val) :=
+  [ ("A", [.int 1]), ("B", [.int 1, .str "b"]), ("B", [.int 2, .str "dangling"]), ("C", [.int 1]), ("C", [.int 2]) ]
+/-- the API route links C(1) to B(1) through the chained read; B(2)'s identifier is dangling (reads `None`), so
+    C(2) finds nothing — and the loader links C(2) to B(2): exactly what the guard `resolved` excludes -/
+example : ((apiBuild chSchema chOrder).1.assocs.map (fun p => (p.1.rel, p.2.tgt 0, p.2.tgt 1))) =
+    [("R1", [0], []), ("R2", [0], [])] := by decide
+example : ((buildCore (chSchema ++ insertsOf chOrder)).assocs.map (fun p => (p.1.rel, p.2.tgt 0, p.2.tgt 1))) =
+    [("R1", [0], []), ("R2", [0], [1])] := by decide
+example : readAttr (loaded chSchema chOrder) 3 "B" 0 "Id" = some (.int 1) ∧
+    readAttr (loaded chSchema chOrder) 3 "B" 1 "Id" = some .none := by decide
+
+def chOrderOk : List (String × List Val) := [ ("A", [.int 1]), ("B", [.int 1, .str "b"]), ("C", [.int 1]) ]
+
+theorem ch_reads (k : String) (i : Nat) (x : String) (hi : i < (rawRows chSchema chOrderOk k).length) :
+    (readAttr (loaded chSchema chOrderOk) (popClasses chSchema).length k i x).isSome = true := by
+  have hD : (popClasses chSchema).length = 3 := by decide
+  have hst : (loaded chSchema chOrderOk).assocs.map (·.1) = popAssocs chSchema := by decide
+  rw [hD]
+  by_cases hA : k = "A"
+  · subst hA
+    have hn : x ∉ referential ((loaded chSchema chOrderOk).assocs.map (·.1)) "A" := by
+      have : referential (popAssocs chSchema) "A" = [] := by decide
+      rw [hst, this]; simp
+    rw [readAttr_stored _ 2 "A" i x hn]; rfl
+  · by_cases hB : k = "B"
+    · subst hB
+      have hl : (rawRows chSchema chOrderOk "B").length = 1 := by decide
+      have hi0 : i = 0 := by omega
+      subst hi0
+      by_cases hx : x = "Id"
+      · subst hx; decide
+      · have hn : x ∉ referential ((loaded chSchema chOrderOk).assocs.map (·.1)) "B" := by
+          have : referential (popAssocs chSchema) "B" = ["Id"] := by decide
+          rw [hst, this]; simpa using hx
+        rw [readAttr_stored _ 2 "B" 0 x hn]; rfl
+    · by_cases hC : k = "C"
+      · subst hC
+        have hl : (rawRows chSchema chOrderOk "C").length = 1 := by decide
+        have hi0 : i = 0 := by omega
+        subst hi0
+        by_cases hx : x = "B_Id"
+        · subst hx; decide
+        · have hn : x ∉ referential ((loaded chSchema chOrderOk).assocs.map (·.1)) "C" := by
+            have : referential (popAssocs chSchema) "C" = ["B_Id"] := by decide
+            rw [hst, this]; simpa using hx
+          rw [readAttr_stored _ 2 "C" 0 x hn]; rfl
+      · exfalso
+        have : (rawRows chSchema chOrderOk k).length = 0 := by
+          have hA' : ¬ "A" = k := fun e => hA e.symm
+          have hB' : ¬ "B" = k := fun e => hB e.symm
+          have hC' : ¬ "C" = k := fun e => hC e.symm
+          simp [rawRows, chOrderOk, List.filter_cons, hA', hB', hC']
+        omega
+
+def chR1 : AssocStmt := ⟨"R1", "B", false, true, ["Id"], "", "A", false, true, ["Id"], ""⟩
+def chR2 : AssocStmt := ⟨"R2", "C", true, true, ["B_Id"], "", "B", false, true, ["Id"], ""⟩
+
+/-- the guards of `api_equiv` / `clone_equiv` are satisfiable with a chained key: C refers to B by B's identifier,
+    which B holds as a reference to A -/
+example : ApiGuards chSchema chOrderOk := by
+  have hA : popAssocs chSchema = [chR1, chR2] := by decide
+  have hlenA : (rawRows chSchema chOrderOk "A").length = 1 := by decide
+  have hlenB : (rawRows chSchema chOrderOk "B").length = 1 := by decide
+  have hlenC : (rawRows chSchema chOrderOk "C").length = 1 := by decide
+  refine ⟨?_, by decide, ?_, ch_reads, ?_, ?_, ?_, by decide, ?_, ?_, ?_⟩
+  · intro s hs k ns vs he
+    subst he
+    simp [chSchema] at hs
+  · intro a ha
+    rw [hA] at ha
+    simp only [List.mem_cons, List.mem_nil_iff, or_false] at ha
+    rcases ha with rfl | rfl
+    · exact ⟨⟨by decide, by decide⟩, by decide, by decide, by decide⟩
+    · exact ⟨⟨by decide, by decide⟩, by decide, by decide, by decide⟩
+  · intro a ha i j s t hs ht _ tk htk
+    rw [hA] at ha
+    simp only [List.mem_cons, List.mem_nil_iff, or_false] at ha
+    rcases ha with rfl | rfl
+    · have hi : i = 0 := by have := (List.getElem?_eq_some_iff.mp hs).1; simp only [chR1] at this; omega
+      have hj : j = 0 := by have := (List.getElem?_eq_some_iff.mp ht).1; simp only [chR1] at this; omega
+      subst hi; subst hj
+      have h2 : (rawRows chSchema chOrderOk chR1.tgtKind)[0]? = some [("Id", Val.int 1)] := by decide
+      rw [h2] at ht; cases ht
+      revert tk htk
+      decide
+    · have hi : i = 0 := by have := (List.getElem?_eq_some_iff.mp hs).1; simp only [chR2] at this; omega
+      have hj : j = 0 := by have := (List.getElem?_eq_some_iff.mp ht).1; simp only [chR2] at this; omega
+      subst hi; subst hj
+      have h2 : (rawRows chSchema chOrderOk chR2.tgtKind)[0]? = some [("Id", Val.int 1), ("N", Val.str "b")] := by decide
+      rw [h2] at ht; cases ht
+      revert tk htk
+      decide
+  · rw [hA]; decide
+  · rw [hA]
+    intro n a hn
+    match n, hn with
+    | 0, hn => simp at hn; subst hn; unfold ResolvesAt; decide
+    | 1, hn => simp at hn; subst hn; unfold ResolvesAt; decide
+    | n + 2, hn => simp at hn
+  · rw [hA]
+    intro a ha pre o suf hord hk s hs
+    simp only [List.mem_cons, List.mem_nil_iff, or_false] at ha
+    match pre, hord with
+    | [], h => simp [rawRows] at hs
+    | [_], h =>
+      simp [chOrderOk] at h
+      obtain ⟨rfl, rfl, _⟩ := h
+      rcases ha with rfl | rfl
+      · revert s hs; decide
+      · revert s hs; decide
+    | [_, _], h =>
+      simp [chOrderOk] at h
+      obtain ⟨rfl, rfl, rfl, _⟩ := h
+      rcases ha with rfl | rfl
+      · simp [chR1] at hk
+      · simp [chR2] at hk
+    | _ :: _ :: _ :: _, h => simp [chOrderOk] at h
   · rw [hA]; decide
   · rw [hA]; decide
 
